@@ -89,12 +89,15 @@ structure Codec (α : Type) where
   dec : Bool → Nat → List Byte → α
   magic : Nat → α
   zero : α
+  /-- the value an empty text field is read to (`NaN`; codecs without one use `zero`) -/
+  nan : α := zero
 
 def ieee : Codec Rat where
   enc le w x := if le then leBytes w (toBits (fmtOf w) x) else (leBytes w (toBits (fmtOf w) x)).reverse
   dec le w bs := fromBits (fmtOf w) (ofLE (if le then bs else bs.reverse))
   magic w := if w = 4 then 1234567 else 123456789012345
   zero := 0
+  nan := pow2 (f64.bias + 2)
 
 /-- what the codec has to satisfy for the round-trip theorems (`narrow` = float32 rounding) -/
 structure Codec.Lawful {α : Type} (c : Codec α) (narrow : α → α) : Prop where
@@ -385,14 +388,21 @@ def readBin {α} [DecidableEq α] (c : Codec α) (v2 : Bool) (nbytes : Nat) (byt
   else if (fromfile c v2 nbytes (bytes.drop nbytes) count).length % vd ≠ 0 then .error .value
   else .ok (fromfile c v2 nbytes (bytes.drop nbytes) count)
 
-/-- text data block → flat values (`read_csv(nrows=nodes)`, drop of a trailing empty column) -/
-def readText {α} (rows : List (List α)) (nodes vd : Nat) : M (List α) :=
+/-- a row with fewer fields than the first one is filled up with NaN -/
+def padRow {α} (nan : α) (k : Nat) (r : List α) : List α := r ++ List.replicate (k - r.length) nan
+
+/-- text data block → flat values: `read_csv(nrows=nodes)` looks at the first `nodes` records only; the first
+record fixes the number of columns; a record with more fields is refused (`ParserError`), one with fewer is
+filled up with NaN; `[]` stands for a record with a field the float parser refuses (a real record has at
+least one field); then the drop of a trailing empty column (mumax) -/
+def readText {α} (nan : α) (rows : List (List α)) (nodes vd : Nat) : M (List α) :=
   if (rows.take nodes).isEmpty then .error .value        -- EmptyDataError
-  else if !((rows.take nodes).all fun r => r.length == ((rows.take nodes).headD []).length) then
+  else if (rows.take nodes).any (fun r => r.isEmpty) then .error .value
+  else if !((rows.take nodes).all fun r => decide (r.length ≤ ((rows.take nodes).headD []).length)) then
     .error .value
   else if ((rows.take nodes).headD []).length = vd + 1 then
-    .ok ((rows.take nodes).flatMap fun r => r.take vd)
-  else .ok (rows.take nodes).flatten
+    .ok ((rows.take nodes).flatMap fun r => (padRow nan (vd + 1) r).take vd)
+  else .ok ((rows.take nodes).flatMap (padRow nan ((rows.take nodes).headD []).length))
 
 /-- `Region(**val)` for one side-car entry, then the checks of the `Mesh.subregions` setter -/
 def isAligned (m : Mesh) (sub : Mesh) (tol : Rat) : Bool :=
@@ -459,7 +469,7 @@ def readBody {α} [DecidableEq α] (c : Codec α) (v2 : Bool) (ws : List String)
     if isBinary ws then readBin c v2 ((dataWidth ws).getD 0) bytes (nodes * vd) vd
     else .error .value
   | .text rows _ =>
-    if isBinary ws then .error .value else readText rows nodes vd
+    if isBinary ws then .error .value else readText c.nan rows nodes vd
 
 def valueDim (first : String) (h : List (String × HVal)) : M Nat :=
   if isV2 first then hnat h "valuedim" else .ok 3
@@ -556,7 +566,7 @@ def refWriter {α} (c : Codec α) (v2 : Bool) (w : Nat) (x : Content α) : OvfFi
        .kv "znodes" (.nat (x.nodes.getD 2 0)),
        .kv "xmin" (.num (x.lo 0)), .kv "ymin" (.num (x.lo 1)), .kv "zmin" (.num (x.lo 2)),
        .kv "xmax" (.num (x.hi 0)), .kv "ymax" (.num (x.hi 1)), .kv "zmax" (.num (x.hi 2))]
-      ++ (if v2 then [.kv "valuedim" (.nat x.vd)] else [.kv "valueunit" (.str "A/m"), .kv "valuemultiplier" (.nat 1)])
+      ++ (if v2 then [.kv "valuedim" (.nat x.vd)] else [.kv "valueunit" (.str "A/m"), .kv "valuemultiplier" (.str "1")])
       ++ [.kv "End" (.str "Header"),
           .beginData (if w = 0 then ["Text"] else ["Binary", toString w])],
     body :=
